@@ -6,6 +6,7 @@ package pclog
 
 // the window computation, called with the buffer lock held
 //@ func (b *ProcessLogBuffer) getLogRange
+//@   flag checked_arith
 //@   requires held(b.mx)
 //@   let L = len(b.buffer)
 //@   let o = ite(offsetFromEnd < 0, 0, ite(offsetFromEnd > L, L, offsetFromEnd))
